@@ -1,4 +1,5 @@
 #![allow(dead_code)]
+#![allow(unexpected_cfgs)]
 
 pub use chunk_cache::{CacheConfig, CHUNK_CACHE_SIZE_BYTES};
 pub use http_client::{build_auth_http_client, build_http_client, RetryConfig};
@@ -9,6 +10,8 @@ pub use remote_client::RemoteClient;
 
 pub use crate::error::CasClientError;
 pub use crate::interface::ShardClientInterface;
+#[cfg(xet_verif)]
+pub use crate::interface::{RegistrationClient as VerifRegistrationClient, ShardDedupProber as VerifShardDedupProber};
 
 mod error;
 mod http_client;
